@@ -142,12 +142,29 @@ def parse_races(text, shard):
                     cur = []; stacks.append(cur)
                 elif b.startswith("Goroutine "):
                     cur = None
-                elif cur is not None and b.startswith("  ") and not b.startswith("      "):
-                    cur.append(b.strip())
+                elif cur is not None and b.startswith("      ") and cur:
+                    cur[-1] = (cur[-1][0], b.strip().split(" ")[0])  # file:line of the frame above
+                elif cur is not None and b.startswith("  "):
+                    cur.append((b.strip(), ""))
             tops = []
             for st in stacks[:2]:
-                libf = [f for f in st if RACE_LIB in f]
-                tops.append(re.sub(r"\(\)$", "", libf[0].replace(RACE_LIB + "/", "")) if libf else "")
+                # the access belongs to the innermost frame that is library or harness code (frames of the
+                # runtime, the standard library and third-party modules above it are how the access was made).
+                # A harness callback the library calls (storage, event hook) is harness code, not library code.
+                label = ""
+                for fn, fl in st:
+                    if fl.startswith(REPO + "/"):
+                        if RACE_LIB in fn:
+                            label = re.sub(r"\(\)$", "", fn.replace(RACE_LIB + "/", ""))
+                        else:
+                            # library code inlined into a harness function: harness name, library file
+                            rel = fl[len(REPO) + 1:].rsplit(":", 1)[0]
+                            m2 = re.search(r"([A-Za-z0-9_]+)(?:\.func\d+)+\(\)$", fn)
+                            label = rel + (":" + m2.group(1) if m2 else "")
+                        break
+                    if fl.startswith(VERIF + "/") or fn.startswith("verif/sim."):
+                        break  # harness access
+                tops.append(label)
             lib = any(tops)
             sig = "C20 clause=data_race site=" + "|".join(sorted(t for t in tops if t))
             out.append({"seed": seed, "phase": phase, "sig": sig, "lib": lib, "text": "\n".join(block), "shard": shard})
